@@ -978,6 +978,11 @@ pub fn main_with(props: Vec<Prop>) -> ! {
         exit = 2;
     }
 
+    if std::env::var("VERIF_CLASSES").is_ok() {
+        for (k, v) in &total.classes {
+            eprintln!("  class {k}: {v}");
+        }
+    }
     let wall = start.elapsed().as_secs_f64();
     let exhaustive = prop.subs.iter().all(|s| matches!(s.kind, Kind::Exhaustive(_)));
     let mut coverage = json!({
